@@ -20,7 +20,7 @@ BUILD = os.environ.get("VERIF_BUILD", os.path.join(VERIF, ".build"))
 NCOPIES = 3
 CXX = "g++"
 
-WRAP = ["open", "fdopen", "fopen", "fileno", "ftruncate", "fstat", "lstat", "fcntl",
+WRAP = ["open", "close", "fdopen", "fopen", "fileno", "ftruncate", "fstat", "lstat", "fcntl",
         "opendir", "readdir", "closedir", "mkdir", "rmdir", "remove", "unlink",
         "access", "syslog", "time", "getpid", "exit", "getenv", "getpwuid_r", "getuid",
         "pthread_mutex_init", "pthread_mutex_destroy", "pthread_mutex_lock", "pthread_mutex_unlock"]
